@@ -553,6 +553,21 @@ fn verdict(op: &Operation, deps: &[Node], gdeps: &[Graph]) -> std::result::Resul
     })
 }
 
+/// the type a node-only operation must get, inferred in a scratch context on `Zeros` stand-ins
+fn independent_type(op: &Operation, deps: &[Node]) -> Option<Type> {
+    catch(|| {
+        let sc = create_context().ok()?;
+        let sg = sc.create_graph().ok()?;
+        let mut stand = vec![];
+        for d in deps {
+            stand.push(sg.zeros(d.get_type().ok()?).ok()?);
+        }
+        sg.add_node(stand, vec![], op.clone()).ok()?.get_type().ok()
+    })
+    .ok()
+    .flatten()
+}
+
 /// `try_update_total_size`'s addend: Some for Input/Constant (2^64 when the code fails before adding)
 fn total_addend(op: &Operation) -> Option<u128> {
     match op {
@@ -881,6 +896,14 @@ fn one_call(world: &mut World, rng: &mut Rng, me: usize, run: &mut Run) -> std::
             let out = match r {
                 Ok(n) => {
                     let id = n.get_id();
+                    // the stored type of an accepted node must be the type inference gives in a fresh context
+                    if !with_type && gdeps.is_empty() {
+                        if let (Some(want), Ok(got)) = (independent_type(&op, &deps), n.get_type()) {
+                            if want != got {
+                                run.oracle_fail("C11:stored-type-differs", format!("history so far then {} : node {} of graph {} stores type {} but type inference in a fresh context gives {}", enc, id, gi, got, want));
+                            }
+                        }
+                    }
                     world.cxs[me].nodes[gi].push(n);
                     Outcome::Ok(id.to_string())
                 }
